@@ -75,6 +75,19 @@ PURE_STDLIB.update({('collections', n): getattr(_co, n) for n in (
     'OrderedDict', 'deque', 'Counter')})
 
 
+def _py_hash(v):
+    """hash() of values whose hash is fixed by the language
+    implementation (integers, None, booleans, tuples of those); string
+    hashes vary per process"""
+    def fixed(x):
+        if x is None or isinstance(x, (int, bool, float)):
+            return True
+        return isinstance(x, (tuple, frozenset)) and all(fixed(y) for y in x)
+    if not fixed(v):
+        raise AnalysisError('hash(%r) is not determined by the source' % (v,))
+    return hash(v)
+
+
 class ClosureEnv(dict):
     """local names of a nested function over the defining environment"""
 
@@ -151,6 +164,7 @@ class Evaluator(object):
             'next': next,
             'map': map,
             'reversed': lambda x: list(reversed(list(x))),
+            'hash': _py_hash, 'divmod': divmod,
         }
         self.functions.update(functions or {})
         self.is_subclass = is_subclass or (lambda c, b: c == b)
@@ -174,6 +188,7 @@ class Evaluator(object):
         # calling a class name that has an entry in class_methods creates
         # an Obj and runs its __init__
         self.instantiate_classes = False
+        self.class_state = {}
         # evaluate the operand of `raise` (Raised.value); off by default
         self.evaluate_raises = False
         # names bound to plain python values (stand-ins for imported
@@ -248,6 +263,18 @@ class Evaluator(object):
             self._callstack.pop()
             self.module, self.clsname = saved_ctx
         return ret, ys
+
+    def _class_attr(self, cls, attr):
+        """a class-body binding; a mutable one is created once (the class
+        statement runs once) and is the same object for every instance and
+        every later call evaluated by this evaluator"""
+        key = (self.module.name, cls, attr)
+        if key in self.class_state:
+            return self.class_state[key]
+        val = self.module.fold_name(attr, cls)
+        if isinstance(val, (list, dict, set)):
+            self.class_state[key] = val
+        return val
 
     def _super_lookup(self, owner, name):
         todo = list(self.class_bases.get(owner, []))
@@ -621,7 +648,7 @@ class Evaluator(object):
             # class constants
             if env.get('self') is base and self.clsname:
                 try:
-                    return self.module.fold_name(e.attr, self.clsname)
+                    return self._class_attr(self.clsname, e.attr)
                 except Unfoldable:
                     pass
             # class attributes of the object's own class and its bases
@@ -634,7 +661,7 @@ class Evaluator(object):
                 seen_c.add(c)
                 if c in getattr(self.module, 'classes', {}):
                     try:
-                        return self.module.fold_name(e.attr, c)
+                        return self._class_attr(c, e.attr)
                     except Unfoldable:
                         pass
                 todo.extend(self.class_bases.get(c, []))
@@ -814,7 +841,7 @@ class Evaluator(object):
             if isinstance(it, Obj):
                 it = self.iterate(it, e)
             for item in list(it):
-                sub = dict(env)
+                sub = ClosureEnv(env)
                 self.assign(g.target, item, sub)
                 if all(self.truth(self.expr(c, sub), c) for c in g.ifs):
                     rec(gens[1:], sub)
